@@ -74,6 +74,15 @@ func fingerprint(p *Program, f *ssa.Function) []string {
 				}
 			}
 			switch x := in.(type) {
+			case *ssa.BinOp:
+				// arithmetic with a numeric constant (tells mm*k from twips/k)
+				for _, o := range []ssa.Value{x.X, x.Y} {
+					if c, ok := o.(*ssa.Const); ok && c.Value != nil && !isStringType(c.Type()) {
+						if cs := c.Value.String(); cs != "0" && cs != "1" && cs != "true" && cs != "false" {
+							set["b:"+x.Op.String()+cs] = true
+						}
+					}
+				}
 			case ssa.CallInstruction:
 				if cal := staticCallee(x); cal != nil && !p.inModule(cal) {
 					set["c:"+fullName(cal)] = true
@@ -199,4 +208,18 @@ func recoverRenames(p *Program) {
 		canonName[best] = full
 		renameNotes = append(renameNotes, fmt.Sprintf("%s is taken to be the renamed %s (same signature, fingerprint similarity %.2f)", lookupName(best), r.Name, bestScore))
 	}
+}
+
+// calleeIs: the function is (or is the renamed) function with that bare name.
+func calleeIs(f *ssa.Function, name string) bool {
+	if f == nil {
+		return false
+	}
+	if f.Name() == name {
+		return true
+	}
+	if cn, ok := canonName[f]; ok {
+		return strings.HasSuffix(cn, "."+name)
+	}
+	return false
 }
